@@ -64,6 +64,17 @@ CLAIMED["C04"] = dict(
         "limits and the converters outside the model (dates, uuid, enum, complex) are judged by the hostile suite under a CPU "
         "watchdog, not proved; 'preserve' item/key policies are outside the theorem (raw elements may be unhashable).",
    technique="Coq proof per construct of the parse calculus + hostile-input oracle and correspondence on the implementation", design="§8 C04")
+CLAIMED["C10"] = dict(
+   text="Machine-checked proof (Coq): theorem C10_same_verdict_and_value — for every declared type of the parse calculus, every input "
+        "and every pair of option records differing at most in collect_errors/max_errors, the fail-fast parse and the collecting "
+        "parse return the same value or both raise. Proved by a simulation (Proofs/Sim.v: lockstep while no error is recorded, "
+        "both poisoned afterwards) established construct by construct and tied by induction on the fuel, together with the "
+        "invariants 'errors are never forgotten' and 'a successful parse leaves the recorded errors unchanged'. C10_cap: max_errors "
+        "caps what is recorded. Reported items for data classes are decided by the collect suite.",
+   note="Trusted: as C01. Unmodelled/OutOfFuel outcomes on either side void the comparison (excluded in the statement). The field loops "
+        "of data classes are simulated only up to parse_value; exact reported items are checked by execution (generator knows which "
+        "fields it invalidated).",
+   technique="Coq simulation proof between the fail-fast and collecting runs of the parse calculus + correspondence and direct oracle", design="§8 C10")
 NOT_YET = {}
 for i in range(1, 21):
     pid = "C%02d" % i
